@@ -49,7 +49,10 @@ Inductive dop :=
 | DNe (o : pyval)
 | DOr (src : dsource)                       (* p | src : a plain dict *)
 | DNew (src : dsource)                      (* DictProxy(cfg, field, src): a new typed dict *)
-| DAssign (src : dsource).                  (* cfg.field = src : whole-value assignment through DictField._validate *)
+| DAssign (src : dsource)                   (* cfg.field = src : whole-value assignment through DictField._validate *)
+| DROr (l : pairs)                          (* l | p with l a plain dict: the reflected position *)
+| DStar (before after : pairs)              (* {**before, **p, **after} *)
+| DEqR (o : pyval).                         (* o == p *)
 
 Definition ds_items (self : pairs) (src : dsource) : pairs :=
   match src with
@@ -160,6 +163,9 @@ Definition b_dstep (s : pairs) (op : dop) : pairs * res pyval :=
       (s, Ok (PDict 0 (if ds_isdict src then ds_items s src else upd [] (ds_items s src))))
   | DAssign src =>                      (* x = dict(src) *)
       ((if ds_isdict src then ds_items s src else upd [] (ds_items s src)), Ok PNone)
+  | DROr l => (s, Ok (PDict 0 (upd l s)))              (* dict.__or__(l, s): a plain dict, left operand first *)
+  | DStar before after => (s, Ok (PDict 0 (upd (upd before s) after)))
+  | DEqR o => (s, Ok (PBool (b_deq s o)))
   end.
 
 (* ------------------------------------------------------------------------------------------ *)
@@ -240,6 +246,9 @@ Definition dop_entry (op : dop) : string :=
   | DOr _ => "__or__"
   | DNew _ => "__init__"
   | DAssign _ => "__init__"
+  | DROr _ => "__ror__"
+  | DStar _ _ => "__iter__"
+  | DEqR _ => "__eq__"
   end.
 Close Scope string_scope.
 
